@@ -166,7 +166,8 @@ impl Prop for C18 {
         }
         let o2 = run(h2.as_bytes(), &cfg2, c.width);
         if *o != o2 {
-            out.push(viol(format!("rendering with the hiding CSS differs from rendering the document with the hidden subtrees deleted: {} vs {} (pruned document: {:?})", o.short(), o2.short(), h2)));
+            let hidden_desc: Vec<String> = (0..f.elems.len()).filter(|e| hidden.contains(&(f.elems[*e].node as *const N))).map(|e| f.chain(e).iter().map(|x| format!("{}#{}", f.elems[*x].node.name(), f.elems[*x].idx)).collect::<Vec<_>>().join(">")).collect();
+            out.push(viol(format!("rendering with the hiding CSS differs from rendering the document with the hidden subtrees deleted: {}; hidden by the reference: {:?}", first_diff(o, &o2), hidden_desc)));
         }
         out
     }
